@@ -17,8 +17,8 @@
 (*               pos (optional [lat,lon,bearing,odo,speed]), css, stop,    *)
 (*               status, ts, cong, occ, occPct]                            *)
 (* Numbers are small (TLC integers are 32 bit): instants are seconds,      *)
-(* delays and start times are whole seconds in {-1,0,1} (hashed as         *)
-(* nanoseconds), floats are tokens 0 -> 0.0, 1 -> 1.5 (f32) / 2.5 (f64).   *)
+(* delays and start times are whole seconds in {-1,0,1} or tokens 10-13   *)
+(* (see DurEnc; hashed as nanoseconds), floats are tokens 0 -> 0.0, 1 -> 1.5 (f32) / 2.5 (f64).   *)
 (***************************************************************************)
 EXTENDS VCommon
 
@@ -33,6 +33,13 @@ U32(n) == Le(n, 4)
 U8(n) == <<n>>
 Bool(b) == <<IF b THEN 1 ELSE 0>>
 Nanos(secs) == I64(secs * 1000000000)
+(* a duration (delay, start time): whole seconds -1, 0, 1, and tokens for durations that are not whole seconds or *)
+(* exceed 32 bits of seconds; hashed as its int64 number of nanoseconds                                           *)
+DurEnc(d) == CASE d = 10 -> I64(1500000000)                          \* 1.5 s
+               [] d = 11 -> I64(400000000)                           \* 400 ms
+               [] d = 12 -> I64(0 - 400000000)                       \* -400 ms
+               [] d = 13 -> <<0, 202, 154, 59, 0, 202, 154, 59>>     \* 2^32 + 1 seconds
+               [] OTHER -> Nanos(d)
 ZeroTime == 0 - 1                                              \* the value of sd that stands for time.Time{}
 ZeroTimeUnix == <<0, 9, 110, 136, 241, 255, 255, 255>>      \* time.Time{}.Unix() = -62135596800, little endian
 F32(tok) == IF tok = 0 THEN <<0, 0, 0, 0>> ELSE <<0, 0, 192, 63>>                    \* 0.0, 1.5
@@ -46,13 +53,13 @@ OptEnc(o, E(_)) == IF IsNone(o) THEN Bool(TRUE) ELSE Bool(FALSE) \o E(Val(o))
 StrPtr(o) == OptEnc(o, Str)
 
 EncEv(o) == IF IsNone(o) THEN Bool(TRUE)
-            ELSE Bool(FALSE) \o OptEnc(Val(o).time, I64) \o OptEnc(Val(o).delay, Nanos) \o OptEnc(Val(o).unc, I32)
+            ELSE Bool(FALSE) \o OptEnc(Val(o).time, I64) \o OptEnc(Val(o).delay, DurEnc) \o OptEnc(Val(o).unc, I32)
 EncStu(s) == OptEnc(s.seq, U32) \o StrPtr(s.stop) \o StrPtr(s.track) \o I32(s.sr) \o EncEv(s.arr) \o EncEv(s.dep)
 
 Enc(t) ==
     Str(t.id) \o Str(t.route) \o U8(t.dir) \o Bool(t.hasSD)
     \o (IF t.sd = ZeroTime THEN ZeroTimeUnix ELSE I64(t.sd))     \* hashed whatever the flag says
-    \o Bool(t.hasST) \o Nanos(t.st) \o I64(Len(t.stus)) \o I32(t.sr)
+    \o Bool(t.hasST) \o DurEnc(t.st) \o I64(Len(t.stus)) \o I32(t.sr)
     \o FoldL(LAMBDA acc, s : acc \o EncStu(s), <<>>, t.stus)
 
 EncPos(p) == OptEnc(p.lat, F32) \o OptEnc(p.lon, F32) \o OptEnc(p.bearing, F32) \o OptEnc(p.odo, F64) \o OptEnc(p.speed, F32)
